@@ -3,8 +3,11 @@ CONSTANTS
   Clients = {"c1", "c2"}
   Ids = {"s1"}
   MaxCalls = 2
-  Locked = TRUE
+  MapsLocked = TRUE
+  SessLocked = TRUE
+  OldDelete = FALSE
   StepGuard = TRUE
   NilGuard = TRUE
+  WithClose = TRUE
   defaultInitValue = 0
 INVARIANTS NoConflict NoConflict_ingesters NoConflict_cancels NoConflict_state NoConflict_report NoNilCancel StepNotStuck LockDiscipline
